@@ -204,6 +204,21 @@ def run(ctx):
             for ref, word in (("$a", "x"), ("$f", "half")):
                 if ref in re.split(r"\s*,\s*", simple.group(2)) and word not in sp_i["v"]:
                     oracle_fail.append({"why": f"well-formed intent: referenced argument {ref} is not spoken", "intent": s, "speech": sp_i["v"], "lines": pre_ign + lines})
+    # ---- curried applications f(..)(..)(..): every referenced argument of every application has to be spoken (heads lifted one after the other)
+    cur_x = "<math><mrow intent='%s'><mi arg='a'>x</mi><mo>+</mo><mi arg='b'>y</mi><mo>+</mo><mi arg='c'>z</mi><mo>+</mo><mfrac arg='op'><mi>p</mi><mi>q</mi></mfrac></mrow></math>"
+    CURRIED = [("f($a)($b)", "xy"), ("f($a)($b)($c)", "xyz"), ("f($c)($b)($a)", "xyz"), ("f($a)($b)($c)($a)", "xyz"), ("$op($b)($c)", "pqyz"), ("$op($a)($b)($c)", "pqxyz"),
+               ("g(f($a)($b)($c))", "xyz"), ("f(g($a))($b)($c)", "xyz")]
+    n_curried = 0
+    for s, letters in CURRIED:
+        lines = [{"op": "set_mathml", "xml": cur_x % s}, {"op": "speech"}]
+        sp = im.run([{"op": "session"}] + pre_ign + lines)[-1]
+        n_curried += 1
+        if sp.get("r") in ("panic", "abort", "timeout"):
+            panics.append({"intent": s, "reply": sp, "lines": lines})
+        elif sp.get("r") == "ok":
+            missing = [ch for ch in letters if not re.search(r"(?<![A-Za-z])" + ch + r"(?![A-Za-z])", sp["v"])]
+            if missing:
+                oracle_fail.append({"why": "well-formed curried intent: referenced argument(s) " + ",".join(missing) + " not spoken", "intent": s, "speech": sp["v"], "lines": pre_ign + lines})
     # ---- argument scope: a reference is looked up among the descendants, but not inside a child that carries an intent of its own or
     # another arg; a reference that can only be found there is an error (ignored or reported as configured)
     inner = "<mi arg='x'>x</mi><mo>+</mo><mi arg='y'>y</mi>"
@@ -237,7 +252,7 @@ def run(ctx):
     im.close()
     mo.close()
     ctx.coverage.update({
-        "argument_scope_cases": n_scope,
+        "argument_scope_cases": n_scope, "curried_applications": n_curried,
         "evaluations": len(cases) + n_scope, "distinct_nontrivial": len(productions),
         "rule": "grammar-generated, mutated, property-only and arbitrary-Unicode intent strings on an mrow with three arg children (two leaves, one fraction), both recovery settings; "
                 "accept/reject and intent-tree shape compared with the model; distinct = distinct accepted parse trees (model)",
